@@ -19,7 +19,7 @@
    tangents of the tilt angles are parameters tr tc (tan is not modelled).  The frequency grids
    fr fc : nat -> P are parameters in the theorems (ANY grid) and fftfreq in the executable
    instance C16K (P = Q), whose phases are compared with the angle of the arrays the code builds. *)
-From Coq Require Import ZArith List QArith.
+From Coq Require Import ZArith List QArith Qround.
 From QV.lib Require Import FinSum DFT DFT2.
 From QV.model Require Import C16_Model.
 Import ListNotations.
@@ -130,7 +130,7 @@ Arguments adot_slices {R} rO radd rmul size os ss.
 
 (* ============================================================================================
    exact rational instance used by harness/props/C16.py: the SAME phase formulas with P = Q and
-   the fftfreq grids; printed reduced.  (E is not evaluated: the check compares these phases,
+   the fftfreq grids; printed as unreduced fractions (the reader reduces them).  (E is not evaluated: the check compares these phases,
    modulo one turn, with the angle of the arrays the implementation builds.) *)
 Module C16K.
   Open Scope Q_scope.
@@ -142,12 +142,19 @@ Module C16K.
   (* phases (turns) of fourier_translation_operator((s1, s2), (n1, n2)) *)
   Definition ramp_phases (n1 n2 : nat) (s1 s2 : Q) : list (list Q) :=
     map (fun k1 => map (fun k2 =>
-        Qred (ramp2_phase Qplus Qmult Qopp (fftfreq_q n1 1) (fftfreq_q n2 1) s1 s2 k1 k2)) (seq 0 n2)) (seq 0 n1).
+        ramp2_phase Qplus Qmult Qopp (fftfreq_q n1 1) (fftfreq_q n2 1) s1 s2 k1 k2) (seq 0 n2)) (seq 0 n1).
 
   (* phases (turns) of _compute_propagator_arrays for one slice gap; tr tc = tan(theta / 1e3) *)
   Definition fresnel_phases (n1 n2 : nat) (d1 d2 lam tr tc dz : Q) : list (list Q) :=
     map (fun k1 => map (fun k2 =>
-        Qred (fresnel_phase Qplus Qmult Qopp half lam tr tc dz (fftfreq_q n1 d1 k1) (fftfreq_q n2 d2 k2)))
+        fresnel_phase Qplus Qmult Qopp half lam tr tc dz (fftfreq_q n1 d1 k1) (fftfreq_q n2 d2 k2))
         (seq 0 n2)) (seq 0 n1).
+
+  (* what is printed: floor (phase * 2^64) (printing a rational with hundreds of digits is slow; the
+     reader takes the value modulo 2^64 for the phase modulo one turn and the quotient for its size) *)
+  Definition fix64 (q : Q) : Z := Qfloor (q * inject_Z (2 ^ 64)).
+  Definition ramp_phases_fix n1 n2 s1 s2 : list (list Z) := map (map fix64) (ramp_phases n1 n2 s1 s2).
+  Definition fresnel_phases_fix n1 n2 d1 d2 lam tr tc dz : list (list Z) :=
+    map (map fix64) (fresnel_phases n1 n2 d1 d2 lam tr tc dz).
   Close Scope Q_scope.
 End C16K.
